@@ -10,7 +10,9 @@ PROPERTY = "C16"
 LEVEL = "exploration"
 TOLERANCE = "rel 1e-5 on both sides of the bound; usage <= 1 + 1e-6"
 RULE = (
-    "Hypothesis-generated (small spec, tolerance setting) pairs; specs: one Einsum (matmul/matvec, rank bounds from "
+    "Hypothesis-generated (small spec, tolerance setting) pairs; every energy (and leak power) is multiplied by a unit "
+    "factor from {1, 1e-12, 1e-9, 1e-3, 1e4} and every throughput by one from {1, 1e3, 1e9} (objective values from ~1e-13 to "
+    "~1e9: the bound is relative); specs: one Einsum (matmul/matvec, rank bounds from "
     "{4,6,8,12}, 2-3 memory levels) or two (2-matmul chain / 2 elementwise ops, bounds <= 6, 2 levels), finite throughputs, "
     "leak, every memory below Main finite and smaller than the tensors together; metrics ENERGY / LATENCY / EDP / ENERGY|LATENCY (half of the cases: two-objective fronts are where rounding drops rows). The "
     "tolerance run's tile-shape prune threshold (literal 1000) is drawn from {1000, 8, 1} (DESIGN 4.6). Settings: "
@@ -48,6 +50,18 @@ def cases(draw, slot):
                                    three_level_single=False))
     else:
         spec = draw(MM.small_specs(shapes=("chain2", "elementwise2", "matmul"), tight=draw(st.sampled_from([True, "very"]))))
+    # physical units: the guarantee is relative, so it must hold whatever the unit of energy and time is (joules and
+    # seconds give objective values far below 1, which an absolute component in the rounding grid would swamp)
+    es = draw(st.sampled_from([1, 1, 1e-12, 1e-9, 1e-3, 1e4]))
+    ts = draw(st.sampled_from([1, 1, 1e9, 1e3]))
+    if es != 1:
+        spec = MM.scale_energy(spec, es)
+    if ts != 1:
+        spec = MM.scale_throughput(spec, ts)
+        for n in spec["nodes"]:
+            if "leak" in n:
+                n["leak"] = n["leak"] * ts        # keeps leak energy in proportion to dynamic energy
+    spec["units"] = [es, ts]
     t = slot["t"] if mode in ("objective", "both") else 0
     r = slot["r"] if mode in ("resource", "both") else 0
     return {"spec": spec, "metrics": metrics, "objective_tolerance": t, "resource_usage_tolerance": r,
@@ -62,6 +76,8 @@ def check(desc, col):
     a = MM.run(spec, metrics=metrics, what="exact run")
     knobs = {"objective_tolerance": t, "resource_usage_tolerance": r}
     labels = MM.shape_labels(spec) + [f"mode:{mode}", f"metrics:{metrics}"]
+    es, ts = spec.get("units", [1, 1])
+    labels += [f"energy_unit:{es:g}", f"time_unit:1/{ts:g}"]
     if t:
         labels.append(f"t:{t}")
     if r:
